@@ -44,7 +44,7 @@ CHECKS = {
                  "connection through MatcherSet.Match. Non-trivial = whole message matches and the prefix verdicts form >= 3 regions, or a mutated stream "
                  "reaching 'no' after at least one 'need more'; distinct = distinct (matcher, config, stream)."),
         "assumptions": ["datagram matchers (quic, wireguard, UDP dns/openvpn) are out of scope of the fragmentation clauses", "yes -> no when trailing bytes arrive is allowed (dns, rdp, winbox, openvpn do it on purpose)"],
-        "min_classes": {"quick": {"C06/full-match": 1500, "C06/mutated": 1000}},
+        "min_classes": {"quick": {"C06/full-match": 1500, "C06/mutated": 1000, "C06/matcher-set-of-two": 300}},
         "runs": [
             {"name": "replay+rapid", "pkg": "./c06", "run": ".", "rapid_checks": {"quick": 400, "thorough": 40000},
              "shards": {"quick": 1, "thorough": 16}, "timeout": {"quick": 600, "thorough": 7200}},
